@@ -25,7 +25,6 @@ ALLOW = {
     (SEL + "inputs_and_change", "iter_sum u64"): (1, _SUPPLY),
     (SEL + "inputs_and_change", "assert:Overflow:Sub "): (3, "total - amount - fee: the only caller (select_send_tx) passes the result of select_coins_and_fee, whose loop exits only with total >= amount + fee (total >= amount when the amount includes the fee); num_change_outputs - 1 after the num_change_outputs == 0 refusal"),
     (SEL + "inputs_and_change", "assert:Overflow:Add "): (1, "part_change + remainder_change <= change"),
-    (SEL + "inputs_and_change", "assert:RemainderByZero "): (1, "part_change >= 1 because change >= num_change_outputs was checked"),
     (SEL + "select_coins_and_fee", "assert:Overflow:Add "): (1, "change_outputs + 1 on usize: change_outputs is InitTxArgs.num_change_outputs (u32) widened to usize"),
     (SEL + "select_from::{closure#0}", "assert:Overflow:Add "): (1, _SUPPLY),
     (SEL + "select_from::{closure#1}", "assert:Overflow:Add "): (1, _SUPPLY),
@@ -369,6 +368,38 @@ def run(ctx):
         run.instance(R4, {"fn": "build_send_tx", "obligation": "with amount_includes_fee the recipient amount is amount.checked_sub(fee)"}, held=held)
         if not held:
             run.finding(Finding(R4, bst.id, "recipient amount is not reduced by the fee under amount_includes_fee", site=bst.loc()))
+    R7 = "C01.R7"
+    run.rule(R7, "the change parts add up to the change: part = change / n and remainder = change % n use the same dividend and the same divisor", floor=1)
+    if iac:
+        divs = [st for bb in iac.bbs if not bb["cleanup"] for st in bb["s"] if st["k"] == "a" and st["r"]["k"] == "bin" and st["r"]["op"] == "Div" and st["r"].get("lty") == "u64"]
+        rems = [st for bb in iac.bbs if not bb["cleanup"] for st in bb["s"] if st["k"] == "a" and st["r"]["k"] == "bin" and st["r"]["op"] == "Rem" and st["r"].get("lty") == "u64"]
+        if len(divs) != 1 or len(rems) != 1:
+            run.error("C01.R7: expected one u64 division and one u64 remainder in inputs_and_change (found %d / %d)" % (len(divs), len(rems)))
+        else:
+            d, r = divs[0]["r"], rems[0]["r"]
+            same_dividend = vf.strip_clones(iac, d["l"]) == vf.strip_clones(iac, r["l"]) and vf.strip_clones(iac, d["l"]) is not None
+            pd, pr = vf.producers(iac, d["r"]), vf.producers(iac, r["r"])
+            same_divisor = pd == pr and bool(pd)
+            held = same_dividend and same_divisor
+            run.instance(R7, {"fn": "inputs_and_change", "obligation": "remainder = change % n with the n of part = change / n", "same_dividend": same_dividend, "divisor_of_part": sorted(map(str, pd))[:3], "divisor_of_remainder": sorted(map(str, pr))[:3]}, held=held)
+            if not held:
+                run.finding(Finding(R7, iac.id, "the change remainder is not taken modulo the number of change outputs: the parts do not add up to the change for small amounts", site=":".join(rems[0]["sp"].split(":")[:2])))
+    R8 = "C01.R8"
+    run.rule(R8, "a late-locked send selects from the account the transaction was initiated for (the context's), not from whatever account is active at finalize", floor=1)
+    fzf = ctx.fn(c.LW + "api_impl::foreign::finalize_tx")
+    if fzf:
+        bs = cfg.find_calls(fzf, SEL + "build_send_tx")
+        if len(bs) != 1:
+            run.error("C01.R8: expected one build_send_tx call in foreign::finalize_tx (late-lock arm), found %d" % len(bs))
+        else:
+            b, t = bs[0]
+            pr = vf.producers(fzf, t["a"][10])
+            from_ctx = vf.has_field(pr, c.LW + "types::Context", "parent_key_id")
+            from_active = vf.has_call(pr, c.WB + "parent_key_id")
+            held = from_ctx and not from_active
+            run.instance(R8, {"fn": "foreign::finalize_tx", "obligation": "build_send_tx(parent_key_id := context.parent_key_id)", "producers": sorted(map(str, pr))[:4]}, held=held)
+            if not held:
+                run.finding(Finding(R8, fzf.id, "the late-lock selection uses the active account instead of the account recorded in the context", site=c.site_of(fzf, b)))
     R5 = "C01.R5"
     run.rule(R5, "an agreed (fixed) fee is binding: build_send_tx goes on only when the re-computed fee equals it", floor=1)
     if bst:
